@@ -52,123 +52,230 @@ def run(ctx):
         R.check_none_default_compare(ctx, res, "scale_free.scale_free_hypergraph")
 
     # ---- D-SAMPLE
-    with res.guard("D-SAMPLE"):
-        def sample_calls(v):
-            out = []
-            for n in walk_no_nested(v.fi.node):
-                if isinstance(n, ast.Call):
-                    dn = R.extern_name(ctx.prog, v.fi, n)
-                    if dn in ("random.sample", "numpy.random.choice"):
-                        out.append((n, dn))
-            return out
+    from ..kinds import ORDER, _Top
 
-        for d, pool_ok in (
-            ("random.random_hypergraph", ("nodes",)),
-            ("random.add_random_edge", ("nodes",)),
-            ("random.add_random_edges", ("nodes",)),
-            ("random.random_shuffle", ("pool_nodes",)),
-            ("scale_free.scale_free_hypergraph", ("nodes",)),
-        ):
+    def sample_calls(v):
+        out = []
+        for n in walk_no_nested(v.fi.node):
+            if isinstance(n, ast.Call):
+                dn = R.extern_name(ctx.prog, v.fi, n)
+                if dn in ("random.sample", "numpy.random.choice"):
+                    out.append((n, dn))
+        return out
+
+    def sample_parts(n, dn):
+        """(population expr, sample-size expr, drawn without replacement?)"""
+        if dn == "random.sample":
+            pop, k = (list(n.args) + [None, None])[:2]
+            kw = {x.arg: x.value for x in n.keywords}
+            return pop, kw.get("k", k), True
+        pop = n.args[0] if n.args else None
+        kw = {x.arg: x.value for x in n.keywords}
+        k = kw.get("size", n.args[1] if len(n.args) > 1 else None)
+        repl = kw.get("replace", n.args[2] if len(n.args) > 2 else None)
+        return pop, k, isinstance(repl, ast.Constant) and repl.value is False
+
+    def is_index_population(v, pop):
+        """`range(len(X))` / `range(n)` with n = len(X): positions of a list, not nodes"""
+        e = v.inline(pop) if pop is not None else None
+        return isinstance(e, ast.Call) and norm(e.func) == "range" and len(e.args) == 1 and isinstance(e.args[0], ast.Call) and norm(e.args[0].func) == "len"
+
+    def universe_status(v, pop):
+        """'ok' when the population is the whole node universe, 'violation' when it is positively a part of it"""
+        if pop is None:
+            return "unknown"
+        e = v.inline(pop)
+        params = {a.arg for a in v.fi.params}
+        inner = e.args[0] if isinstance(e, ast.Call) and norm(e.func) in ("list", "tuple", "sorted", "np.array", "numpy.array") and len(e.args) == 1 else e
+        if isinstance(inner, ast.Call) and norm(inner.func) == "range":
+            if len(inner.args) == 1 and isinstance(inner.args[0], ast.Name) and inner.args[0].id in params:
+                return "ok"
+            return "violation"  # range(n - 1), range(1, n), range(<something else>)
+        if isinstance(inner, ast.Call) and isinstance(inner.func, ast.Attribute) and inner.func.attr == "get_nodes" and not inner.args and not inner.keywords:
+            return "ok"
+        if isinstance(inner, ast.Subscript) and isinstance(inner.slice, ast.Slice):
+            return "violation"
+        return "unknown"
+
+    with res.guard("D-SAMPLE"):
+        for d in ("random.random_hypergraph", "random.add_random_edge", "random.add_random_edges", "random.random_shuffle", "scale_free.scale_free_hypergraph"):
             v = ctx.view(d)
             f = v.fi.short
-            calls = [(n, dn) for n, dn in sample_calls(v) if not (dn == "random.sample" and n.args and isinstance(n.args[0], ast.Call) and norm(n.args[0].func) == "range" and d == "random.random_shuffle")]
-            calls = [(n, dn) for n, dn in calls if not (dn == "numpy.random.choice" and n.args and norm(n.args[0]) == "num_nodes")]
+            params = {a.arg for a in v.fi.params}
+            calls = []
+            for n, dn in sample_calls(v):
+                pop, k, _ = sample_parts(n, dn)
+                if is_index_population(v, pop):
+                    continue  # a draw of list positions (which hyperedges to rewire), not of nodes
+                if dn == "numpy.random.choice" and isinstance(pop, ast.Name) and pop.id in params:
+                    continue  # np.random.choice(num_nodes, ...): positions below an integer parameter, not a hyperedge
+                calls.append((n, dn))
             if not calls:
-                raise AnalysisError(f"{f}: sampling call not found")
+                res.unknown("D-SAMPLE", f, "random.sample(nodes, size)", "k=size", "no node-sampling call recognised", loc(v.fi, v.fi.node))
+                continue
             for n, dn in calls:
-                if dn == "random.sample":
-                    pop, k = (n.args + [None, None])[:2]
-                    repl_ok = True
-                else:
-                    pop = n.args[0] if n.args else None
-                    kw = {x.arg: x.value for x in n.keywords}
-                    k = kw.get("size", n.args[1] if len(n.args) > 1 else None)
-                    repl = kw.get("replace", n.args[2] if len(n.args) > 2 else None)
-                    repl_ok = isinstance(repl, ast.Constant) and repl.value is False
+                pop, k, repl_ok = sample_parts(n, dn)
                 res.check(repl_ok, "D-SAMPLE", f, norm(n), "without-replacement", "nodes of a hyperedge are drawn with replacement: a hyperedge can contain a node twice", loc(v.fi, n))
                 kk = v.kind(k) if k is not None else None
-                from ..kinds import _Top
-
-                good = k is not None and isinstance(k, ast.Name) and k.id == "size" and (kk == SIZE or isinstance(kk, _Top))
-                res.check(good, "D-SAMPLE", f, norm(n), "k=size", f"the sample size is `{norm(k) if k is not None else '?'}` ({kk!r}), not the requested hyperedge size", loc(v.fi, n))
-                res.check(pop is not None and norm(pop) in pool_ok, "D-SAMPLE", f, norm(n), "population", f"nodes are drawn from `{norm(pop) if pop is not None else '?'}` instead of {pool_ok}", loc(v.fi, n))
-        for d in ("random.random_hypergraph", "random.add_random_edge", "random.add_random_edges", "scale_free.scale_free_hypergraph"):
-            v = ctx.view(d)
-            defs = [n for n in walk_no_nested(v.fi.node) if isinstance(n, ast.Assign) and isinstance(n.targets[0], ast.Name) and n.targets[0].id == "nodes"]
-            ok = bool(defs) and all(norm(x.value) in ("list(range(num_nodes))", "list(hg.get_nodes())") for x in defs)
-            res.check(ok, "D-SAMPLE", v.fi.short, norm(defs[0]) if defs else "nodes = ...", "node-universe", "the node universe is not range(num_nodes) / the hypergraph's nodes", loc(v.fi, v.fi.node))
-        # activity driven
+                st = "ok" if kk == SIZE else ("violation" if kk == ORDER or isinstance(k, ast.Constant) or (isinstance(k, ast.BinOp)) else "unknown")
+                res.add("D-SAMPLE", f, norm(n), "k=size", st, "" if st == "ok" else f"the sample size is `{norm(k) if k is not None else '?'}` ({kk!r}), not the requested hyperedge size", loc(v.fi, n))
+                if d != "random.random_shuffle":  # (its population is the rewiring pool: D-POOL)
+                    st = universe_status(v, pop)
+                    res.add("D-SAMPLE", f, norm(n), "population", st, "" if st == "ok" else f"nodes are drawn from `{norm(v.inline(pop)) if pop is not None else '?'}`, not from the whole node universe (range(num_nodes) / the hypergraph's nodes)", loc(v.fi, n))
+    with res.guard("D-SAMPLE (activity driven)"):
         v = ctx.view("activity_driven.HOADmodel")
         f = v.fi.short
-        sc = [n for n in walk_no_nested(v.fi.node) if isinstance(n, ast.Call) and R.extern_name(ctx.prog, v.fi, n) == "random.sample"]
+        sc = [n for n, dn in sample_calls(v) if dn == "random.sample"]
         if not sc:
             raise AnalysisError(f"{f}: sampling call not found")
+        n_param = v.fi.params[0].arg if v.fi.params else "N"
         for n in sc:
-            res.check(len(n.args) == 2 and norm(n.args[0]) == "range(N)" and norm(n.args[1]) == "order", "D-SAMPLE", f, norm(n), "k=order", "the activated node does not draw `order` partners below N", loc(v.fi, n))
-        apps = [n for n in walk_no_nested(v.fi.node) if isinstance(n, ast.Call) and isinstance(n.func, ast.Attribute) and n.func.attr == "append" and norm(n.func.value) == "neigh_list"]
-        res.check(len(apps) == 1 and norm(apps[0].args[0]) == "node_i", "D-SAMPLE", f, norm(apps[0]) if apps else "neigh_list.append(node_i)", "plus-self", "the hyperedge is not the partners plus the activated node (size order+1)", loc(v.fi, v.fi.node))
-        hl = [n for n in walk_no_nested(v.fi.node) if isinstance(n, ast.Call) and isinstance(n.func, ast.Attribute) and n.func.attr == "append" and norm(n.func.value) == "hyperlinks"]
-        for n in hl:
-            ifs = v.enclosing_all(n, (ast.If,))
-            ok = any(norm(i.test) in ("len(neigh_list) == len(set(neigh_list))", "len(set(neigh_list)) == len(neigh_list)") for i in ifs)
-            res.check(ok, "D-SAMPLE", f, norm(n), "distinct", "hyperedges with a repeated node are emitted", loc(v.fi, n))
-            res.check(isinstance(n.args[0], ast.Tuple) and norm(n.args[0].elts[0]) == "t", "D-SAMPLE", f, norm(n), "time", "the emitted record does not carry the time step of its activation", loc(v.fi, n))
-        tl = [n for n in walk_no_nested(v.fi.node) if isinstance(n, ast.For) and norm(n.target) == "t"]
-        res.check(bool(tl) and all(norm(x.iter) == "range(time)" for x in tl), "D-SAMPLE", f, norm(tl[0].iter) if tl else "range(time)", "times", "times do not range over [0, time)", loc(v.fi, v.fi.node))
+            pop, k, _ = sample_parts(n, "random.sample")
+            e = v.inline(pop) if pop is not None else None
+            pop_ok = isinstance(e, ast.Call) and norm(e.func) == "range" and len(e.args) == 1 and norm(e.args[0]) == n_param
+            pop_bad = isinstance(e, ast.Call) and norm(e.func) == "range" and not pop_ok
+            # the number of partners is the order, i.e. the key of the activities dict the loop runs over
+            lp = [l for l in v.enclosing_all(n, (ast.For,)) if isinstance(l.target, (ast.Name, ast.Tuple))]
+            order_names = set()
+            for l in lp:
+                it = v.inline(l.iter)
+                base = it.func.value if isinstance(it, ast.Call) and isinstance(it.func, ast.Attribute) and it.func.attr in ("keys", "items") else it
+                if isinstance(base, ast.Name) and base.id in {a.arg for a in v.fi.params} and base.id != n_param:
+                    t = l.target.elts[0] if isinstance(l.target, ast.Tuple) else l.target
+                    if isinstance(t, ast.Name):
+                        order_names.add(t.id)
+            k_ok = isinstance(k, ast.Name) and k.id in order_names
+            k_bad = k is not None and not k_ok and (isinstance(k, (ast.BinOp, ast.Constant)) or (isinstance(k, ast.Name) and order_names))
+            st = "ok" if pop_ok and k_ok else ("violation" if pop_bad or k_bad else "unknown")
+            res.add("D-SAMPLE", f, norm(n), "k=order", st, "" if st == "ok" else "the activated node does not draw `order` partners below N", loc(v.fi, n))
+            # the drawn list + the activated node is the hyperedge; it is emitted only when its members are distinct
+            asg = v.parent.get(id(n))
+            lst = asg.targets[0].id if isinstance(asg, ast.Assign) and isinstance(asg.targets[0], ast.Name) else None
+            node_loops = [l for l in v.enclosing_all(n, (ast.For,)) if isinstance(l.target, ast.Name) and norm(v.inline(l.iter)) == f"range({n_param})"]
+            me = node_loops[0].target.id if node_loops else None
+            if lst is None or me is None:
+                res.unknown("D-SAMPLE", f, norm(n), "plus-self", "the partner list / the activated node were not identified", loc(v.fi, n))
+                continue
+            apps = [x for x in walk_no_nested(v.fi.node) if isinstance(x, ast.Call) and isinstance(x.func, ast.Attribute) and x.func.attr == "append" and norm(x.func.value) == lst]
+            concat = [x for x in walk_no_nested(v.fi.node) if isinstance(x, ast.BinOp) and isinstance(x.op, ast.Add) and lst in (norm(x.left), norm(x.right))]
+            if apps:
+                res.check(len(apps) == 1 and norm(apps[0].args[0]) == me, "D-SAMPLE", f, norm(apps[0]), "plus-self", "the hyperedge is not the partners plus the activated node (size order+1)", loc(v.fi, apps[0]))
+            elif concat:
+                res.unknown("D-SAMPLE", f, norm(concat[0]), "plus-self", "the hyperedge is assembled by concatenation", loc(v.fi, concat[0]))
+            else:
+                res.violation("D-SAMPLE", f, f"{lst}.append({me})", "plus-self", "the hyperedge is not the partners plus the activated node (size order+1)", loc(v.fi, n))
+            time_loops = [l for l in v.enclosing_all(n, (ast.For,)) if isinstance(l.target, ast.Name) and l not in node_loops and isinstance(v.inline(l.iter), ast.Call) and norm(v.inline(l.iter).func) == "range"]
+            tname = time_loops[0].target.id if time_loops else None
+            emits = [x for x in walk_no_nested(v.fi.node) if isinstance(x, ast.Call) and isinstance(x.func, ast.Attribute) and x.func.attr == "append" and x.args and isinstance(x.args[0], ast.Tuple) and lst in {y.id for y in ast.walk(x.args[0]) if isinstance(y, ast.Name)}]
+            for x in emits:
+                xid = v.cfg_id(x)
+                dist = False
+                for i in [y for y in walk_no_nested(v.fi.node) if isinstance(y, ast.If)]:
+                    tt = i.test
+                    if isinstance(tt, ast.Compare) and len(tt.ops) == 1 and isinstance(tt.ops[0], (ast.Eq, ast.NotEq)):
+                        sides = {norm(tt.left), norm(tt.comparators[0])}
+                        if sides == {f"len({lst})", f"len(set({lst}))"}:
+                            lab = "T" if isinstance(tt.ops[0], ast.Eq) else "F"
+                            if v.cfg.branch_dominated(v.cfg.by_ast[id(tt)], lab, xid):
+                                dist = True
+                any_if = bool(v.enclosing_all(x, (ast.If,))) or any(isinstance(y, ast.Continue) for y in ast.walk(v.enclosing(x, (ast.For,)) or x))
+                res.add("D-SAMPLE", f, norm(x), "distinct", "ok" if dist else ("unknown" if any_if and not dist and False else "violation"), "" if dist else "hyperedges with a repeated node are emitted", loc(v.fi, x))
+                if tname is not None:
+                    res.check(norm(x.args[0].elts[0]) == tname, "D-SAMPLE", f, norm(x), "time", "the emitted record does not carry the time step of its activation", loc(v.fi, x))
+            tparams = [a.arg for a in v.fi.params if a.arg not in (n_param,)]
+            if time_loops:
+                rng = v.inline(time_loops[0].iter)
+                ok = len(rng.args) == 1 and isinstance(rng.args[0], ast.Name) and rng.args[0].id in tparams
+                res.check(ok, "D-SAMPLE", f, norm(rng), "times", "times do not range over [0, time)", loc(v.fi, time_loops[0]))
+            else:
+                res.unknown("D-SAMPLE", f, "range(time)", "times", "the loop over time steps was not recognised", loc(v.fi, v.fi.node))
     # ---- D-POOL / D-REWIRE in random_shuffle
     with res.guard("D-POOL / D-REWIRE in random_shuffle"):
         v = ctx.view("random.random_shuffle")
         f = v.fi.short
+        # roles, discovered: the node draw, its pool, the selected positions, the list of hyperedges of the size
+        draws = [(n, dn) for n, dn in sample_calls(v) if not is_index_population(v, sample_parts(n, dn)[0])]
+        picks = [(n, dn) for n, dn in sample_calls(v) if is_index_population(v, sample_parts(n, dn)[0])]
+        if len(draws) != 1 or len(picks) != 1:
+            raise AnalysisError(f"{f}: node draw / position draw not recognised")
+        pool = sample_parts(*draws[0])[0]
+        pool = pool.id if isinstance(pool, ast.Name) else None
+        pick_asg = v.enclosing(picks[0][0], (ast.Assign,))
+        idx = pick_asg.targets[0].id if pick_asg is not None and isinstance(pick_asg.targets[0], ast.Name) else None
+        sel = [n for n in walk_no_nested(v.fi.node) if isinstance(n, ast.Assign) and isinstance(n.targets[0], ast.Name) and any(isinstance(x, ast.Call) and isinstance(x.func, ast.Attribute) and x.func.attr == "get_edges" for x in ast.walk(n.value))]
+        cur = sel[0].targets[0].id if len(sel) == 1 else None
+        if pool is None or idx is None or cur is None:
+            raise AnalysisError(f"{f}: pool / selected positions / hyperedge list not identified")
+
         def selected_edges_generators(gens):
-            """`for i in indices_to_replace for node in current_edges[i]`"""
+            """`for i in <selected positions> for node in <edges>[i]`"""
             its = [norm(g.iter) for g in gens]
-            return len(gens) >= 2 and its[0] == "indices_to_replace" and its[1] == f"current_edges[{norm(gens[0].target)}]"
+            return len(gens) >= 2 and its[0] == idx and its[1] == f"{cur}[{norm(gens[0].target)}]"
 
         n_sources = 0
+        pool_names = {pool}
+        # the pool may be re-packed: pool = np.array(list(pool0.keys()))
         for n in walk_no_nested(v.fi.node):
-            # (a) element stores  pool_nodes[node] = ... / += ...
+            if isinstance(n, ast.Assign) and isinstance(n.targets[0], ast.Name) and n.targets[0].id in pool_names:
+                pool_names |= {x.id for x in ast.walk(n.value) if isinstance(x, ast.Name) and isinstance(v.kind(x), type(v.kind(n.targets[0]))) is not None and x.id not in ("np", "numpy", "list", "sorted")} & {t.targets[0].id for t in walk_no_nested(v.fi.node) if isinstance(t, ast.Assign) and isinstance(t.targets[0], ast.Name)}
+        for n in walk_no_nested(v.fi.node):
+            # (a) element stores  pool[node] = ... / += ...
             if isinstance(n, (ast.Assign, ast.AugAssign)):
                 tg = n.targets if isinstance(n, ast.Assign) else [n.target]
                 for t in tg:
-                    if isinstance(t, ast.Subscript) and norm(t.value) == "pool_nodes":
+                    if isinstance(t, ast.Subscript) and norm(t.value) in pool_names:
                         n_sources += 1
                         loops = v.enclosing_all(n, (ast.For,))
                         its = [norm(l.iter) for l in loops]
-                        ok = len(loops) >= 2 and its[-1] == "indices_to_replace" and its[-2] == f"current_edges[{norm(loops[-1].target)}]"
+                        ok = len(loops) >= 2 and its[-1] == idx and its[-2] == f"{cur}[{norm(loops[-1].target)}]"
                         res.check(ok, "D-POOL", f, norm(n), "from-rewired-edges", f"the pool is filled while iterating {its}: replacement nodes can come from hyperedges that are not rewired", loc(v.fi, n))
                     # (b) whole-pool definitions
-                    if isinstance(t, ast.Name) and t.id == "pool_nodes" and isinstance(n, ast.Assign):
+                    if isinstance(t, ast.Name) and t.id in pool_names and isinstance(n, ast.Assign):
                         val = n.value
                         if isinstance(val, ast.Dict) and not val.keys:
                             continue  # empty initialisation
-                        if "pool_nodes" in {x.id for x in ast.walk(val) if isinstance(x, ast.Name)}:
+                        if isinstance(val, ast.Call) and not val.args and norm(val.func) in ("dict", "set", "list"):
+                            continue
+                        if pool_names & {x.id for x in ast.walk(val) if isinstance(x, ast.Name)}:
                             continue  # re-packing of the pool itself (keys -> array)
                         n_sources += 1
                         if isinstance(val, (ast.DictComp, ast.SetComp, ast.ListComp)):
                             ok = selected_edges_generators(val.generators)
                             res.check(ok, "D-POOL", f, norm(n), "from-rewired-edges", f"the pool is built from {[norm(g.iter) for g in val.generators]}, not from the hyperedges selected for rewiring: replacement nodes can come from hyperedges that are not rewired", loc(v.fi, n))
+                        elif isinstance(val, ast.Call) and ctx.callees(v.fi, val):
+                            res.unknown("D-POOL", f, norm(n), "from-rewired-edges", "the pool is built by a helper", loc(v.fi, n))
                         else:
                             res.violation("D-POOL", f, norm(n), "from-rewired-edges", "the pool is taken from another source than the hyperedges selected for rewiring", loc(v.fi, n))
         if n_sources == 0:
             raise AnalysisError(f"{f}: pool construction idiom not recognised")
-        sel = [n for n in walk_no_nested(v.fi.node) if isinstance(n, ast.Assign) and isinstance(n.targets[0], ast.Name) and n.targets[0].id == "current_edges"]
-        res.check(bool(sel) and all("hg.get_edges(size=size)" in norm(s.value) for s in sel), "D-REWIRE", f, norm(sel[0]) if sel else "current_edges = ...", "selection", "the rewired hyperedges are not exactly those of the requested size", loc(v.fi, v.fi.node))
-        lp = [n for n in walk_no_nested(v.fi.node) if isinstance(n, ast.For) and "enumerate(current_edges)" in norm(n.iter)]
+        size_kw = [x for s_ in sel for x in ast.walk(s_.value) if isinstance(x, ast.Call) and isinstance(x.func, ast.Attribute) and x.func.attr == "get_edges"]
+        ge = size_kw[0]
+        kw = {k.arg: k.value for k in ge.keywords}
+        sz = kw.get("size")
+        ok = sz is not None and v.kind(sz) == SIZE and not ge.args and set(kw) <= {"size"} and norm(ge.func.value) == v.fi.params[0].arg
+        res.check(ok, "D-REWIRE", f, norm(sel[0]), "selection", "the rewired hyperedges are not exactly those of the requested size", loc(v.fi, sel[0]))
+        lp = [n for n in walk_no_nested(v.fi.node) if isinstance(n, ast.For) and norm(n.iter) == f"enumerate({cur})"]
         if len(lp) != 1:
             raise AnalysisError(f"{f}: replacement loop not recognised")
-        apps = [n for n in ast.walk(lp[0]) if isinstance(n, ast.Call) and isinstance(n.func, ast.Attribute) and n.func.attr == "append" and norm(n.func.value) == "new_edges"]
-        ids = {v.cfg_id(a) for a in apps}
+        adds = [n for n in walk_no_nested(v.fi.node) if isinstance(n, ast.Call) and isinstance(n.func, ast.Attribute) and n.func.attr == "add_edges" and n.args]
+        newl = norm(adds[0].args[0]) if adds else None
+        apps = [n for n in ast.walk(lp[0]) if isinstance(n, ast.Call) and isinstance(n.func, ast.Attribute) and n.func.attr == "append" and norm(n.func.value) == newl]
+        if not apps:
+            raise AnalysisError(f"{f}: replacement list not recognised")
         head = v.cfg.by_ast[id(lp[0])]
         one_each = all(not v.cfg.reaches_without(v.cfg_id(a), v.cfg_id(b), {head}) for a in apps for b in apps if a is not b)
-        res.check(len(apps) >= 2 and one_each, "D-REWIRE", f, "new_edges.append(...)", "one-per-edge", "an iteration can add two replacements (or none) for one hyperedge", loc(v.fi, lp[0]))
-        keep = [a for a in apps if norm(a.args[0]) == "edge"]
-        res.check(bool(keep), "D-REWIRE", f, "new_edges.append(edge)", "unselected-kept", "hyperedges that are not selected for rewiring are not kept unchanged", loc(v.fi, lp[0]))
-        for br, meths in (("inplace", ("remove_edges", "add_edges")),):
-            calls = [n for n in walk_no_nested(v.fi.node) if isinstance(n, ast.Call) and isinstance(n.func, ast.Attribute) and n.func.attr in meths]
-            rm = [c for c in calls if c.func.attr == "remove_edges"]
-            ad = [c for c in calls if c.func.attr == "add_edges"]
-            res.check(bool(rm) and all(norm(c.args[0]) == "current_edges" for c in rm), "D-REWIRE", f, norm(rm[0]) if rm else "remove_edges(current_edges)", "removes-listed", "other hyperedges than the listed ones of that size are removed", loc(v.fi, v.fi.node))
-            res.check(bool(ad) and all(norm(c.args[0]) == "new_edges" for c in ad), "D-REWIRE", f, norm(ad[0]) if ad else "add_edges(new_edges)", "adds-new", "the replacement list is not what gets added", loc(v.fi, v.fi.node))
+        res.check(len(apps) >= 2 and one_each, "D-REWIRE", f, f"{newl}.append(...)", "one-per-edge", "an iteration can add two replacements (or none) for one hyperedge", loc(v.fi, lp[0]))
+        edge_var = lp[0].target.elts[1].id if isinstance(lp[0].target, ast.Tuple) and len(lp[0].target.elts) == 2 and isinstance(lp[0].target.elts[1], ast.Name) else None
+        keep = [a for a in apps if norm(a.args[0]) == edge_var]
+        res.check(bool(keep), "D-REWIRE", f, f"{newl}.append({edge_var})", "unselected-kept", "hyperedges that are not selected for rewiring are not kept unchanged", loc(v.fi, lp[0]))
+        calls = [n for n in walk_no_nested(v.fi.node) if isinstance(n, ast.Call) and isinstance(n.func, ast.Attribute) and n.func.attr in ("remove_edges", "add_edges")]
+        rm = [c for c in calls if c.func.attr == "remove_edges"]
+        if rm:
+            res.check(all(c.args and norm(c.args[0]) == cur for c in rm), "D-REWIRE", f, norm(rm[0]), "removes-listed", "other hyperedges than the listed ones of that size are removed", loc(v.fi, rm[0]))
+        else:
+            res.unknown("D-REWIRE", f, f"remove_edges({cur})", "removes-listed", "no remove_edges call recognised", loc(v.fi, v.fi.node))
+        if adds:
+            res.check(all(norm(c.args[0]) == newl for c in adds), "D-REWIRE", f, norm(adds[0]), "adds-new", "the replacement list is not what gets added", loc(v.fi, adds[0]))
     res.discovery["random_shuffle_seed"] = "random_shuffle seeds numpy.random but also draws from the stdlib `random` module (indices_to_replace): outside C14's claims (same-seed reproducibility is claimed for random_hypergraph / random_uniform_hypergraph only)"
     res.assumptions += ["random.sample / numpy.random.choice(replace=False) return distinct elements (library)", "counts per size and distinctness of hyperedges are not decided"]
     return res
